@@ -169,7 +169,7 @@ def split_instr_file(f, limit):
     return out
 
 
-def instr_conformance(run, profiles, n, seed, label, claims, max_events=4000, values=False):
+def instr_conformance(run, profiles, n, seed, label, claims, max_events=4000, values=False, vary_budget=False):
     """Instruction-level conformance (VmInstr.tla): every executed instruction of generated programs is validated against the
     per-instruction model of instruction pointer, stack height and call frames.  `claims(m)` says whether a rejected record
     contradicts the property of the calling check; other rejections are deviations of the implementation from the model
@@ -182,7 +182,7 @@ def instr_conformance(run, profiles, n, seed, label, claims, max_events=4000, va
     def job(i, prof):
         def go():
             f = os.path.join(d, "%s.ndjson" % prof)
-            drive_trace(["instr-drive", "--profile", prof, "--seed", seed * 100 + i, "--n", n, "--max-events", max_events, "--values", 1 if values else 0], f, n, timeout=1800)
+            drive_trace(["instr-drive", "--profile", prof, "--seed", seed * 100 + i, "--n", n, "--max-events", max_events, "--values", 1 if values else 0, "--vary-budget", 1 if vary_budget else 0], f, n, timeout=1800)
             return f
         return go
     files = parallel([job(i, p) for i, p in enumerate(profiles)], nproc=4)
